@@ -121,4 +121,24 @@ PROPS = {
                          "part of any obligation); the real RootEmitter with a no-op sink receives the warnings"],
         "assumptions": [],
     },
+    "C09": {
+        "functions_under_contract": [
+            "ast::Expr::binop_ty_from_arg_ty, ast::Expr::unop_ty_from_arg_ty (the context-free faces of _binop_ty / _unop_ty, "
+            "src/passes/type_check.rs)",
+            "ast::BinOpKind::{class, is_comparison}, ast::UnOpKind::as_ty_sigil (src/ast/mod.rs)",
+            "ast::BinOpKind::const_eval, ast::UnOpKind::const_eval, ScalarValue::{cast_by_ty_sigil, ty} as the evaluation side",
+        ],
+        "unverified": [
+            "FIRST SENTENCE OF THE PROPERTY (accepted exactly when well-typed, wherever the construct sits): type_check::Visitor "
+            "and ExprTypeChecker (binop_check/unop_check/require_int..., call arity and parameter types, assignment/declaration "
+            "compatibility, sigil rules, int-only conditions and counters) need a CompilerContext and emit diagnostics; neither "
+            "back end can execute them",
+            "types of non-operator expressions (variables, calls, ternaries, diff switches): Expr::compute_ty over CompilerContext",
+            "float % and sin..atan are only typed (their values are over-approximated by CBMC)",
+        ],
+        "bounds": ["none: finite in operators (19 binary, 14 unary) x {int,float}, full domain in operand values, loop-free"],
+        "trusted_base": [],
+        "assumptions": ["operand type combinations are restricted to those the documented operator classes admit; what the "
+                        "evaluator does on ill-typed operands (today: panic) is not constrained"],
+    },
 }
